@@ -22,6 +22,8 @@ func init() {
 			"C03.R4 WMC: renames over a destination only in the mode-preserving publishers (staging-layer table)",
 			"C03.R5 shape: in/out path identity is decided by exact (in)equality or file identity",
 			"C03.R6 MPT: the input file is opened for writing only where the operation is in place",
+			"C03.R7 MPT: a stream operation func(rs, w, …) error of pkg/api returns nil only after handing its writer on (no success without output)",
+			"C03.R8 shape (= C01.R5): the captured finalizer variable of a stream operation is assigned once",
 			"C03.R2 MPT: alias rejection before staging in image-input operations; shape of the reject helpers and of outputAliasesInput",
 		},
 		Assumptions: []string{"os.Stat follows symlinks; (*os.File).Chmod is not filtered by the umask"},
@@ -243,6 +245,10 @@ func runC03(c *Ctx) {
 	r.MinInst["C03.R5"] = 25
 	checkPathIdentityDecisions(c)
 	r.MinInst["C03.R6"] = 3
+	r.MinInst["C03.R7"] = 40
+	checkStreamOpsWriteOnSuccess(c)
+	r.MinInst["C03.R8"] = 1
+	checkFinalizerSingleAssignment(c, "C03.R8")
 	checkInputWrittenOnlyInPlace(c)
 }
 
